@@ -152,18 +152,34 @@ type SolverResult struct {
 }
 
 type solverSpec struct {
-	name string
-	bin  string
-	args func(file string, timeoutMs int) []string
-	hdr  string
+	name  string
+	bin   string
+	args  func(file string, timeoutMs int) []string
+	hdr   string
+	delay time.Duration // start delay inside the staged portfolio
 }
 
+func z3Args(extra ...string) func(f string, ms int) []string {
+	return func(f string, ms int) []string {
+		// -t is a soft per-query limit (ms); -T a hard wall-clock limit (s) for runaway processes; memory in MB
+		a := []string{fmt.Sprintf("-t:%d", ms), fmt.Sprintf("-T:%d", ms/1000+5), "-memory:6000"}
+		a = append(a, extra...)
+		return append(a, "-smt2", f)
+	}
+}
+
+// The portfolio is staged: most obligations close in well under a second with the first configuration.
+// An obligation that does not is typically one on which the default search diverges while a different
+// random seed or arithmetic solver closes it at once, so further configurations are started after a delay.
 var solverSpecs = []solverSpec{
-	{"z3-new", "z3-new", func(f string, ms int) []string { return []string{fmt.Sprintf("-t:%d", ms), "-smt2", f} }, ""},
-	{"z3", "z3", func(f string, ms int) []string { return []string{fmt.Sprintf("-t:%d", ms), "-smt2", f} }, ""},
+	{"z3-new", "z3-new", z3Args(), "", 0},
+	{"z3-new.seed7", "z3-new", z3Args("smt.random_seed=7"), "", 1500 * time.Millisecond},
+	{"z3-new.arith2", "z3-new", z3Args("smt.arith.solver=2"), "", 1500 * time.Millisecond},
+	{"z3", "z3", z3Args(), "", 2 * time.Second},
 	{"cvc5", "cvc5", func(f string, ms int) []string {
 		return []string{"--lang=smt2", fmt.Sprintf("--tlimit=%d", ms), "--incremental", f}
-	}, "(set-logic ALL)\n"},
+	}, "(set-logic ALL)\n", 3 * time.Second},
+	{"z3-new.seed13", "z3-new", z3Args("smt.random_seed=13", "smt.arith.solver=6"), "", 5 * time.Second},
 }
 
 func solverAvailable(bin string) bool {
@@ -177,7 +193,7 @@ func runQuery(dir, name, query string, timeout time.Duration, wantModel bool, on
 	defer cancel()
 	// cvc5 reserves the str.* namespace of the strings theory even when it is not used
 	query = strings.ReplaceAll(query, "str.", "gstr.")
-	resCh := make(chan SolverResult, len(solverSpecs))
+	resCh := make(chan SolverResult, len(solverSpecs)+1)
 	n := 0
 	var wg sync.WaitGroup
 	for _, sp := range solverSpecs {
@@ -200,9 +216,9 @@ func runQuery(dir, name, query string, timeout time.Duration, wantModel bool, on
 		// staged portfolio: the first solver starts at once, the others only if it has not answered
 		// after a short delay (most obligations close in well under a second; this keeps the
 		// number of concurrent solver processes close to the number of obligations in flight)
-		delay := time.Duration(0)
-		if n > 1 {
-			delay = 1500 * time.Millisecond
+		delay := sp.delay
+		if n == 1 {
+			delay = 0
 		}
 		go func(sp solverSpec, delay time.Duration) {
 			defer wg.Done()
